@@ -1,7 +1,7 @@
 #!/bin/bash
 # runs every seeded change against the check of the property it breaks (or the checks named in meta.json "also_run");
 # writes seeded/RESULTS.tsv: name, property, exit code, first violation key
-cd /verif
+cd "$(dirname "$0")/.."
 : > seeded/RESULTS.tsv.new
 for d in seeded/*/; do
   n=$(basename $d); id=${n%%-*}
